@@ -66,6 +66,13 @@ func Addr(s signature.Signer) staking.Address { return staking.NewAddress(s.Publ
 
 func q(n uint64) quantity.Quantity { return *quantity.NewFromUint64(n) }
 
+func maxInt(a, b int) int {
+	if a > b {
+		return a
+	}
+	return b
+}
+
 // GenesisOptions selects a genesis variant.
 type GenesisOptions struct {
 	EpochInterval      int64  // blocks per epoch (insecure beacon)
@@ -76,6 +83,11 @@ type GenesisOptions struct {
 	BypassStake        bool
 	Escrow             []uint64 // self-escrow per entity (default 1000, 2000, 3000)
 	MaxBlockGas        uint64
+	NoRewards          bool // no staking rewards (stake changes only through transactions and slashing)
+	MaxPerEntity       int  // scheduler MaxValidatorsPerEntity (default 1)
+	ExtraNodes         bool // entity 1 also owns node 3 (a second validator node) at genesis
+	NodeExpiration     uint64 // expiration epoch of genesis nodes (default 4)
+
 }
 
 // NodeDescriptor builds the descriptor of node i owned by entity ent.
@@ -128,6 +140,9 @@ func Genesis(k *Keys, o GenesisOptions) (*genesis.Document, error) {
 	if o.CommonPool == 0 {
 		o.CommonPool = 100000
 	}
+	if o.NodeExpiration == 0 {
+		o.NodeExpiration = 4
+	}
 	nEnt := len(k.Entities)
 	for len(o.Escrow) < nEnt {
 		o.Escrow = append(o.Escrow, uint64(1000*(len(o.Escrow)+1)))
@@ -148,7 +163,7 @@ func Genesis(k *Keys, o GenesisOptions) (*genesis.Document, error) {
 				DebugAllowUnroutableAddresses: true,
 				DebugAllowTestRuntimes:        true,
 				DebugDeployImmediately:        true,
-				MaxNodeExpiration:             5,
+				MaxNodeExpiration:             beacon.EpochTime(o.NodeExpiration + 1),
 				EnableRuntimeGovernanceModels: map[registry.RuntimeGovernanceModel]bool{
 					registry.GovernanceEntity:  true,
 					registry.GovernanceRuntime: true,
@@ -166,7 +181,7 @@ func Genesis(k *Keys, o GenesisOptions) (*genesis.Document, error) {
 			Parameters: scheduler.ConsensusParameters{
 				MinValidators:          1,
 				MaxValidators:          o.MaxValidators,
-				MaxValidatorsPerEntity: 1,
+				MaxValidatorsPerEntity: maxInt(o.MaxPerEntity, 1),
 				DebugBypassStake:       o.BypassStake,
 			},
 		},
@@ -292,20 +307,36 @@ func Genesis(k *Keys, o GenesisOptions) (*genesis.Document, error) {
 		total += 500
 	}
 	st.TotalSupply = q(total)
+	if o.NoRewards {
+		st.Parameters.RewardSchedule = nil
+		st.Parameters.RewardFactorEpochSigned = q(0)
+		st.Parameters.RewardFactorBlockProposed = q(0)
+	}
 	doc.Staking = st
 
 	// Registry: entities and their validator nodes.
 	for e := range k.Entities {
-		se, err := entity.SignEntity(k.Entities[e], registry.RegisterGenesisEntitySignatureContext, k.EntityDescriptor(e, []int{e}))
+		owned := []int{e}
+		if o.ExtraNodes && e == 1 && len(k.Nodes) > 3 {
+			owned = []int{1, 3}
+		}
+		se, err := entity.SignEntity(k.Entities[e], registry.RegisterGenesisEntitySignatureContext, k.EntityDescriptor(e, owned))
 		if err != nil {
 			return nil, err
 		}
 		doc.Registry.Entities = append(doc.Registry.Entities, se)
-		sn, err := node.MultiSignNode(k.NodeSigners(e), registry.RegisterGenesisNodeSignatureContext, k.NodeDescriptor(e, e, 4, node.RoleValidator))
+		sn, err := node.MultiSignNode(k.NodeSigners(e), registry.RegisterGenesisNodeSignatureContext, k.NodeDescriptor(e, e, beacon.EpochTime(o.NodeExpiration), node.RoleValidator))
 		if err != nil {
 			return nil, err
 		}
 		doc.Registry.Nodes = append(doc.Registry.Nodes, sn)
+		if o.ExtraNodes && e == 1 && len(k.Nodes) > 3 {
+			sn3, err := node.MultiSignNode(k.NodeSigners(3), registry.RegisterGenesisNodeSignatureContext, k.NodeDescriptor(3, 1, beacon.EpochTime(o.NodeExpiration), node.RoleValidator))
+			if err != nil {
+				return nil, err
+			}
+			doc.Registry.Nodes = append(doc.Registry.Nodes, sn3)
+		}
 	}
 	return doc, nil
 }
